@@ -82,6 +82,7 @@ def scenarios(tier):
                 "threads": {"T1": [("dii", "S2", "badsize")], "T2": [("store", "p1", "S1", None)]}, "pids": ("p1", "p2")})
     out.append({"name": "delete(p2)||store(p1,S1) from p2=S2 [depth 1 width 1]", "init": "p2S2", "p": "1x1",
                 "threads": {"T1": [("delete", "p2")], "T2": [("store", "p1", "S1", None)]}, "pids": ("p1", "p2")})
+    _follow(out)
     out += line_level_scenarios(tier, out)
     if tier == "thorough":
         for a, b, st in [("s2A", "d1", "p1A"), ("t1A", "d1", "empty"), ("s1A", "s2A", "empty"), ("s1A", "s1B", "empty")]:
@@ -99,6 +100,7 @@ def scenarios(tier):
                         (("d1", "d2", "s3A"), "p1A,p2A"), (("s1A", "s1A", "d1"), "empty"), (("t2A", "d1", "d1"), "p1A")]:
             out.append({"name": "%s||%s||%s from %s (pre-emption bound 2)" % (tri + (st,)), "init": st, "bound": 2,
                         "threads": {"T%d" % (i + 1): [m[x]] for i, x in enumerate(tri)}, "pids": ("p1", "p2", "p3")})
+    _follow(out)
     return out
 
 
@@ -137,6 +139,7 @@ def line_level_scenarios(tier, base):
                     "threads": {"T1": [MENU[a]], "T2": [MENU[b]]}, "pids": ("p1", "p2")})
     for name, st, o1, o2 in L_EXTRA:
         sel.append({"name": name, "init": st, "threads": {"T1": [o1], "T2": [o2]}, "pids": ("p1", "p2", "p3")})
+    _follow(sel)
     out = []
     if tier == "quick":
         for sp in sel:
@@ -151,6 +154,15 @@ def line_level_scenarios(tier, base):
     for sp in sel:
         out += tscen.line_level(sp, "opcode", 8)
     return out
+
+
+def _follow(specs):
+    """The instance is used on after the overlapping calls: deleting every pid of the scenario must behave, and leave
+    behind, what it does after some sequential order of the calls."""
+    for sp in specs:
+        if "followups" not in sp:
+            sp["followups"] = [("delete", p) for p in sp.get("pids", ("p1", "p2"))]
+            sp["after"] = True
 
 
 def main(tier):
